@@ -596,11 +596,14 @@ class TransactionEncode:
             elif item[0] == "T4":
                 rows_T = collections.defaultdict(list)
 
-                keys = sorted(set().union(*[r.keys() for r in item[2]]),key=str)
+                #columns are named by str(key), so rows are keyed that way before they are packed
+                #(otherwise keys such as 1 and '1' each add a cell to the same column for every row)
+                rows = [{str(k):v for k,v in r.items()} for r in item[2]]
+                keys = sorted(set().union(*rows))
 
-                for row in item[2]:
+                for row in rows:
                     for key in keys:
-                        rows_T[str(key)].append(row.get(key,None))
+                        rows_T[key].append(row.get(key,None))
 
                 yield encoder(["I", item[1], { "_packed": rows_T }])
 
